@@ -315,7 +315,7 @@ def run_pipelines(prop, tier, seed, ctx):
     res["coverage"]["nested_programs"] = sum(1 for p in progs if "concat" in p or "flatmap" in p)
     res["coverage"]["unbounded_inputs"] = sum(1 for p in progs if "(inf" in p)
     res["coverage"]["programs_run_on_composed_machines"] = sum(j.count("\nMACH") + (1 if j.startswith("MACH") else 0) for _, j in outs)
-    res["coverage"]["of_which_in_the_domain_of_prog3_correct"] = sum(j.count("\nMTHM") for _, j in outs)
+    res["coverage"]["of_which_in_the_domain_of_prog3_correct2"] = sum(j.count("\nMTHM") for _, j in outs)
     for rec, judged in outs:
         for l in judged.splitlines():
             if l.startswith("FLAG "):
